@@ -96,13 +96,13 @@ func vApplySetup() *vApply { return vApplySetupID(false) }
 func vApplySetupID(realID bool) *vApply {
 	a := &vApply{s: verifNewStores(verifWID)}
 	s := a.s
-	shIn := rt.NondetBytes(32)
+	shIn := vScriptHash()
 	a.coin = vCredit(shIn)
 	a.coin.flags.Class = ClassStandardUtxo
 	vPutCredit(s, verifWID, a.coin)
 	a.balBefore = a.coin.amount.UintValue()
 	vTxReg, vTxIDReg, vTxIDs = nil, nil, nil
-	a.shOut = rt.NondetBytes(32)
+	a.shOut = vScriptHash()
 	tx := wire.NewMsgTx()
 	a.relIn = rt.NondetLen(0, 1)
 	other := wire.OutPoint{Hash: vHash(), Index: rt.NondetU32()}
